@@ -8,8 +8,8 @@
 (*   backend   the measured feature record of the cache (first event)      *)
 (*   store     a, c          tile a stored with time class c               *)
 (*   junk      j             non-tile file j created                       *)
-(*   configure levels, mode, cov, dry; res = "task" | "refused";           *)
-(*             all, complete = what the real CleanupTask carries           *)
+(*   configure levels, mode, cov, dry, refresh; res = "task" | "refused";  *)
+(*             all, complete, tlevels = what the real CleanupTask carries  *)
 (*   strategy  which = "dir" | "bulk" | "walk"  (the procedure cleanup()   *)
 (*             entered, seen by interposition)                             *)
 (*   raises    level          level_location(level) raised                 *)
@@ -41,7 +41,8 @@ UnderJ(e, z) == UNION {Range(u[3]) : u \in {v \in Range(e.under) : v[1] = z}}
 BkOf(e) == [name |-> e.name, hasLevelLoc |-> e.hasLevelLoc, raises |-> Range(e.raises),
             probe |-> e.probe, probeRaises |-> e.probeRaises,
             underT |-> [z \in Levels |-> UnderT(e, z) \cap Addr], underJ |-> [z \in Levels |-> UnderJ(e, z) \cap JunkIds],
-            hasBulk |-> e.hasBulk, supportsTs |-> e.supportsTs, storesTs |-> e.storesTs]
+            hasBulk |-> e.hasBulk, supportsTs |-> e.supportsTs, storesTs |-> e.storesTs,
+            cacheRuleWins |-> e.cacheRuleWins]
 
 TraceInit ==
   /\ tid \in 1 .. NTraces /\ l = 2
@@ -56,9 +57,9 @@ Step(e) ==
   \/ e.ev = "store" /\ Store(e.a, e.c)
   \/ e.ev = "junk" /\ PutJunk(e.j)
   \/ /\ e.ev = "configure"
-     /\ Configure([levels |-> Range(e.levels), mode |-> e.mode, cov |-> e.cov, dry |-> e.dry])
+     /\ Configure([levels |-> Range(e.levels), mode |-> e.mode, cov |-> e.cov, dry |-> e.dry, refresh |-> e.refresh])
      /\ (e.res = "refused") <=> (pc' = "refused")
-     /\ pc' = "choose" => (task'.all = e.all /\ task'.complete = e.complete)
+     /\ pc' = "choose" => (task'.all = e.all /\ task'.complete = e.complete /\ task'.levels = Range(e.tlevels))
   \/ e.ev = "strategy" /\ ChooseStrategy /\ strategy' = e.which
   \/ e.ev = "raises" /\ LevelLocationRaises(e.level)
   \/ /\ e.ev = "cleanup_directory"
